@@ -4,7 +4,7 @@
 use crate::choices::hex_short;
 use crate::ev;
 use crate::kernel::{Ctx, Net, NetCfg, Violation};
-use crate::models::layout;
+use crate::models::{layout, shamir_big};
 use crate::runner::{guarded, Property};
 use crate::worlds::b::{self, Delivery};
 use base64::{engine::Engine as _, prelude::BASE64_STANDARD};
@@ -171,6 +171,53 @@ impl Property for C17 {
                 }
                 saw_some = true;
                 ctx.stats.probe("group_key_recovered");
+                // genuine shares at CHOSEN points: whoever holds t shares can compute the share at any point; a
+                // client may also simply have drawn it. Points with bit 128 set (12451 of the field's elements)
+                // and the pair (x, x + 2^128) are the ones a 128-bit shortcut gets wrong.
+                if g.t >= 2 && g.t <= 40 && ctx.ch.chance(1, 2) {
+                    let parsed: Vec<(Vec<u8>, layout::PShare)> = lines.iter().filter_map(|l| BASE64_STANDARD.decode(l).ok()).filter_map(|b| layout::parse_share(&b).map(|p| (b, p))).collect();
+                    let mut by_x: BTreeMap<BigUint, usize> = BTreeMap::new();
+                    for (i, (_, p)) in parsed.iter().enumerate() {
+                        by_x.entry(p.x.clone()).or_insert(i);
+                    }
+                    let base: Vec<usize> = by_x.values().copied().take(g.t as usize).collect();
+                    if base.len() == g.t as usize {
+                        let pm = shamir_big::p();
+                        let k = parsed[base[0]].1.ys.len();
+                        let polys: Vec<Vec<BigUint>> = (0..k).map(|j| shamir_big::interpolate(&base.iter().map(|&i| (parsed[i].1.x.clone(), parsed[i].1.ys[j].clone())).collect::<Vec<_>>(), &pm)).collect();
+                        let two128 = BigUint::from(1u8) << 128;
+                        let small = BigUint::from(1 + ctx.ch.draw(12_000));
+                        let craft = |x: &BigUint| -> String {
+                            let (bytes, p0) = &parsed[base[0]];
+                            let mut b = bytes.clone();
+                            let s0 = p0.offs[0];
+                            b[s0..s0 + 24].copy_from_slice(&shamir_big::to_le24(x));
+                            for j in 0..k {
+                                let y = shamir_big::eval(&polys[j], x, &pm);
+                                b[s0 + 24 * (j + 1)..s0 + 24 * (j + 2)].copy_from_slice(&shamir_big::to_le24(&y));
+                            }
+                            BASE64_STANDARD.encode(&b)
+                        };
+                        let hi = &two128 + &small;
+                        let sets: Vec<(&str, Vec<String>)> = vec![
+                            ("one share at a point >= 2^128", { let mut v: Vec<String> = base[1..].iter().map(|&i| BASE64_STANDARD.encode(&parsed[i].0)).collect(); v.push(craft(&hi)); v }),
+                            ("shares at x and x + 2^128", { let mut v: Vec<String> = base[2..].iter().map(|&i| BASE64_STANDARD.encode(&parsed[i].0)).collect(); v.push(craft(&small)); v.push(craft(&hi)); v }),
+                        ];
+                        for (what, set) in sets {
+                            let xs: BTreeSet<BigUint> = set.iter().filter_map(|l| BASE64_STANDARD.decode(l).ok()).filter_map(|b| layout::parse_share(&b)).map(|p| p.x).collect();
+                            if xs.len() < g.t as usize {
+                                continue; // the chosen point coincided with a dealt one
+                            }
+                            let perm = ctx.ch.permutation(set.len());
+                            let j2 = perm.iter().map(|&i| set[i].clone()).collect::<Vec<_>>().join("\n");
+                            let r = guarded(|| star_wasm::group_shares(&j2, &g.epoch)).map_err(|(loc, msg)| Violation::new("c17.panic", "group_shares", format!("{} {}", loc, msg)))?;
+                            if r.as_deref() != Some(want.as_str()) {
+                                return Err(Violation::new("c17.group_key", "chosen_point", format!("group {} (t={}): {} genuine shares with distinct points ({}) did not yield the clients' key: {:?}", gi, g.t, set.len(), what, r)));
+                            }
+                            ctx.stats.probe("group_key_recovered_with_chosen_points");
+                        }
+                    }
+                }
                 // another epoch never yields the clients' key
                 // an unrelated epoch and the NEIGHBOURS of the clients' epoch (whitespace added or
                 // trimmed, case changed, a byte appended)
